@@ -14,8 +14,7 @@ Open Scope N_scope.
 Lemma scales_nonzero_b : forallb chk_scale_nonzero all_names = true.
 Proof. vm_compute. reflexivity. Qed.
 
-Lemma standards_b :
-  forallb (fun e => chk_standard e || mem_str (fst (fst e)) known_standards) standards = true.
+Lemma standards_b : forallb chk_standard standards = true.
 Proof. vm_compute. reflexivity. Qed.
 
 Lemma scales_nonzero n : In n all_names ->
@@ -27,13 +26,13 @@ Proof.
 Qed.
 
 Lemma standards_hold n f dims r :
-  In (n, f, dims) standards -> impl_entry n = Some r -> mem_str n known_standards = false ->
+  In (n, f, dims) standards -> impl_entry n = Some r ->
   exists q, impl_quantity n = Some q /\ hmap_eqb dims (q_dim q) = true /\ q_exact q = true
             /\ real_eqb f (q_scale q) = true.
 Proof.
-  intros Hin He Hk.
-  pose proof (proj1 (forallb_forall _ _) standards_b _ Hin) as Hc. cbn [fst] in Hc.
-  rewrite Hk, orb_false_r in Hc. unfold chk_standard in Hc. rewrite He in Hc.
+  intros Hin He.
+  pose proof (proj1 (forallb_forall _ _) standards_b _ Hin) as Hc.
+  unfold chk_standard in Hc. rewrite He in Hc.
   destruct (impl_quantity n) as [q|]; [|discriminate].
   apply andb_true_iff in Hc. destruct Hc as [Hc H3]. apply andb_true_iff in Hc. destruct Hc as [H1 H2].
   exists q. auto.
